@@ -62,12 +62,13 @@ def verify_function(args):
         res["lineno"] = fn.lineno
         res["file"] = os.path.relpath(module.path, repo.root)
         cls = module.owner.get(qual.split(".", 1)[1])
+        eng.ct.used = set()
+        from . import state as _state
+        del _state.NEW_ARRAYS[:]
         fx = FuncExec(eng, qual, c, module, fn, cls)
         obs = fx.run()
         for ob in obs:
             discharge(eng, ob, timeout_s=timeout, both=both)
-            if ob.status == "unknown" and not ob.expect_sat:
-                finite_scope_refute(eng, ob, timeout)
             res["obligations"].append({
                 "name": ob.name, "kind": ob.kind, "label": ob.label, "status": ob.status,
                 "backend": ob.backend, "seconds": round(ob.seconds, 3), "reason": ob.reason,
